@@ -20,7 +20,9 @@
     (mode 'a' averages two equal lists).
 
   What is NOT a theorem: that the real float / mpf contraction equals this exact value (explored numerically by the
-  harness), and the network of `RotatedPlanarRMPSDecoder` (see the note at the end of this file).
+  harness).  The network of `RotatedPlanarRMPSDecoder` is NOT in this file: it is modelled in
+  Model/RotatedPlanarRmpsTn.lean and proved in Props/C10/RotatedPlanarRmpsNetwork.lean (see the note at the end of this
+  file).
 -/
 import QecVerif.Lemmas.RotatedPlanarTnQubit
 import QecVerif.Props.C10.Network
@@ -113,30 +115,26 @@ example : ((rplanarTn 3 4 ⟨58982, 2185, 1092, 3277⟩ exSample).a.toList.filte
   decide +kernel
 
 /-
-  NOT COVERED — `RotatedPlanarRMPSDecoder` (`_rotatedplanarrmpsdecoder.py`).  Its network is NOT a re-indexing of
-  `rplanarTn`: `TNC.create_tn` builds an `R x C` array with ONE tensor per qubit at `(r, c) = (R-1-y, x)`, no `None`,
-  and NO stabilizer tensors.  Every stabilizer delta is split into (up to) four 3-leg deltas
-  (`tsr.delta(n_shape)` … `w_shape`, a "horseshoe": open at the top for even columns, at the bottom for odd ones) which
-  `create_q_node` absorbs into the neighbouring qubit tensors:
+  NOT IN THIS FILE (but PROVED elsewhere) — `RotatedPlanarRMPSDecoder` (`_rotatedplanarrmpsdecoder.py`).  Its network is
+  NOT a re-indexing of `rplanarTn`: `TNC.create_tn` builds an `R x C` array with ONE tensor per qubit at
+  `(r, c) = (R-1-y, x)`, no `None`, and NO stabilizer tensors.  Every stabilizer delta is split into (up to) four 3-leg
+  deltas (`tsr.delta(n_shape)` … `w_shape`, a "horseshoe": open at the top for even columns, at the bottom for odd ones)
+  which `create_q_node` absorbs into the neighbouring qubit tensors:
   `einsum('nesw,nIj,eJk,sKl,wLi->iIjJKkLl', q, δn, δe, δs, δw).reshape(|i||I|, |j||J|, |K||k|, |L||l|)`, so the bonds
   of the network are the horseshoe links, merged pairwise (row-major) into bonds of dimension 1, 2 or 4
   (e.g. 3 x 3: shapes `1221 1242 1142 / 2241 4242 4122 / 4211 4212 2112`), with 2 x 10 hand-written shape cases.
-  STATED, NOT PROVED: `exactValue (rplanarRTn R C d f) = some (cosetProb d (RotatedPlanar.stabilizers R C) f)` and the
-  corresponding `contract` statements.  What a proof needs beyond this file:
-  (1) a model `rplanarRTn` of `create_q_node` (entry = the 4-fold sum of the einsum, 3-leg `deltaEntry`, the reshape)
-      and the tensor-by-tensor harness comparison (same shape as harness/qv/c10_rplanar.py);
-  (2) a bond-splitting lemma for the state sum: a variable of dimension `a·b` summed over `range (a·b)` = two variables
-      of dimensions `a`, `b` with the entry read at `x·b + y` (`TensorExact.sum_merge'` lifted to `sumV`), giving a
-      state sum over the individual horseshoe links (index type e.g. `Bond × Bool`);
-  (3) the collapse of the inner einsum: for in-range sub-indices the cell entry is
-      `q[n*, e*, s*, w*] · [the ≤ 8 sub-indices around the cell agree pairwise as the four deltas demand]`;
-  (4) the stars of `FactorGraph.sumV_stars`: per stabilizer the list of its ≤ 3 links (a tree on its ≤ 4 delta nodes;
-      ≥ 1 link since every plaquette has ≥ 2 qubits), disjoint, all of dimension 2 — the product over the cells of
-      the indicators of (3) is the product over the stabilizers of `star`;
-  (5) then `sumB_eq_span` with the SAME qubit-side lemmas as here (`comb_bits`, `stabOp_bits`, `hNodeValue_bits`;
-      `prod_sites` becomes the direct `(r, c) ↦ (c, R-1-r)` reindexing) and C11 for a None-free network
-      (`noneFree_padded`), exactly as for the planar decoder.
-  Steps (2)–(4) are new (≈ the size of Lemmas/RotatedPlanarTnSum.lean + …Qubit.lean together).
+
+  Audit note: an earlier version of this file listed `exactValue (rplanarRTn R C d f) = some (cosetProb d
+  (RotatedPlanar.stabilizers R C) f)` and the corresponding `contract` statements as STATED, NOT PROVED, with a five-step
+  plan (model of `create_q_node`; bond splitting; collapse of the inner einsum; horseshoe stars; `sumB_eq_span`).  That
+  plan has been carried out — the model is called `rprmpsTn` (Model/RotatedPlanarRmpsTn.lean), not `rplanarRTn`:
+    * `C10.RotatedPlanarRmpsNetwork.rotated_planar_rmps_tn_exact_value` — `exactValue (rprmpsTn R C d f) = some (cosetProb …)`,
+      all R, C ≥ 3 (steps (1)–(5): `rotated_planar_rmps_shapes`, `rotated_planar_rmps_qnode_entry`,
+      Lemmas/RotatedPlanarRmpsTn.lean, Lemmas/RotatedPlanarRmpsFactor.lean);
+    * `rotated_planar_rmps_tn_value`, `_rl`, `_transposed`, `rotated_planar_rmps_tn_decoder_value`,
+      `rotated_planar_rmps_tn_coset_values` — the `contract` statements;
+    * `C10.RotatedPlanarRmpsShared.rotated_planar_rmps_coset_values_c / _r / _a` — the decoder's shared-bra procedure.
+  Nothing about that decoder remains open on the exact-arithmetic side.
 -/
 
 end Qec.C10.RotatedPlanarNetwork
